@@ -65,7 +65,7 @@ theorem sentinel_inv_step (s s' : State) (l : Label) (h : SentinelInv s) (hs : s
       · cases hs; exact h
       · split at hs
         · cases hs
-        · split at hs <;> cases hs; exact h
+        · cases hs; exact h
   | notify e j m =>
     simp only [step] at hs
     split at hs
@@ -350,7 +350,7 @@ theorem cancelled_mono (s s' : State) (l : Label) (i : Nat) (hi : i < s.nextInst
       · cases hs; exact ⟨hc, hi⟩
       · split at hs
         · cases hs
-        · split at hs <;> cases hs; exact ⟨hc, hi⟩
+        · cases hs; exact ⟨hc, hi⟩
   | notify e j m =>
     simp only [step] at hs
     split at hs
@@ -406,7 +406,7 @@ theorem closed_conn_step (s s' : State) (l : Label) (c : Nat) (hk : c ∈ s.conn
       · cases hs; exact ⟨hk, ho, by simp [say, upd_other _ _ _ _ hne]⟩
       · split at hs
         · cases hs
-        · split at hs <;> cases hs
+        · cases hs
           exact ⟨hk, ho, by simp [say, upd_other _ _ _ _ hne]⟩
   | notify e j m =>
     simp only [step] at hs
